@@ -195,15 +195,24 @@ def _big_sqrt(it, st, args, ctx):
 
 @summary(r'^<(u8|u16|u32|u64|u128) as (num::integer::)?Roots>::sqrt$')
 def _uint_sqrt(it, st, args, ctx):
-    a = args[0]
+    return isqrt_bv(args[0])
+
+
+_ISQRT = {}
+
+
+def isqrt_bv(a):
+    """integer square root of an unsigned machine integer: a function symbol with its defining axioms (floor of the root)"""
+    from .interp import G
     n = a.size()
-    s = fresh('isqrt_bv', z3.BitVecSort(n))
+    f = _ISQRT.get(n)
+    if f is None:
+        f = _ISQRT[n] = z3.Function('isqrt_u%d' % n, z3.BitVecSort(n), z3.BitVecSort(n))
+    s = f(a)
     half = n // 2
     # s < 2^(n/2) so s*s cannot wrap; (s+1)^2 compared in 2n bits
-    st.assume(z3.ULT(s, bv(1 << half, n)))
-    st.assume(z3.ULE(s * s, a))
     w = z3.ZeroExt(n, s) + 1
-    st.assume(z3.UGT(w * w, z3.ZeroExt(n, a)))
+    G.add(z3.And(z3.ULT(s, bv(1 << half, n)), z3.ULE(s * s, a), z3.UGT(w * w, z3.ZeroExt(n, a))))
     return s
 
 
